@@ -115,6 +115,15 @@ class World:
                 out.setdefault(k, t)
         return out
 
+    def db_key_candidates(self, db: str) -> Dict[str, List[str]]:
+        """key (full name or alias) -> contained tables that currently carry it (more than one after a
+        rename into a clash, which plain attribute assignment cannot prevent)"""
+        out: Dict[str, List[str]] = {}
+        for t in self.m[db]["tables"]:
+            for k in dict.fromkeys(self.keys_of(t)):
+                out.setdefault(k, []).append(t)
+        return out
+
     def col_db(self, c: str) -> Optional[str]:
         t = self.m[c]["table"]
         return self.m[t]["db"] if t else None
@@ -404,7 +413,12 @@ def expected_dump(world: World, renderer_quals: Dict[str, Dict[str, str]]) -> Di
             out[h] = {"name": d["name"], "items": _pairs(d["items"]), "note": {"text": d["note"], "parent": h},
                       "comment": d["comment"], "db": d["db"]}
         elif k == "db":
-            td = sorted([key, t] for key, t in world.db_keys(h).items())
+            cands = world.db_key_candidates(h)
+            if all(len(v) == 1 for v in cands.values()):
+                td: Any = sorted([key, v[0]] for key, v in cands.items())
+            else:
+                # two contained tables share a key: which of them the index shows under it is not prescribed
+                td = {"ambiguous": {k: sorted(v) for k, v in cands.items()}}
             out[h] = {"tables": list(d["tables"]), "refs": list(d["refs"]), "enums": list(d["enums"]),
                       "groups": list(d["groups"]), "notes": list(d["notes"]), "project": d["project"],
                       "allow_properties": d["allow_properties"],
